@@ -6,6 +6,7 @@ import (
 	"context"
 	"crypto/sha256"
 	"fmt"
+	"io"
 	"sort"
 	"strings"
 
@@ -18,11 +19,43 @@ type ent struct {
 	dir  bool
 	data []byte
 	link string // symlink target if non-empty
+	mode int64  // permission bits of a regular file; 0 = 0644
 }
 
 // mkLayer renders the entries as a tar archive (parents created on demand,
 // entries in the given order) and opens it as a claircore.Layer.
 func mkLayer(ents []ent) (*claircore.Layer, error) {
+	b, _, err := mkTar(ents)
+	if err != nil {
+		return nil, err
+	}
+	return openLayer(b, bytes.NewReader(b), "")
+}
+
+// span is the position of a regular file's content inside the tar archive.
+type span struct{ lo, hi int64 }
+
+// openLayer opens tar bytes as a claircore.Layer reading through rd. The digest is that of
+// the bytes followed by the nonce: layers with equal content and different nonces are
+// different layers to every per-layer cache.
+func openLayer(b []byte, rd io.ReaderAt, nonce string) (*claircore.Layer, error) {
+	h := sha256.New()
+	h.Write(b)
+	h.Write([]byte(nonce))
+	var l claircore.Layer
+	desc := claircore.LayerDescription{
+		Digest:    fmt.Sprintf("sha256:%x", h.Sum(nil)),
+		MediaType: "application/vnd.oci.image.layer.v1.tar",
+	}
+	if err := l.Init(context.Background(), &desc, rd); err != nil {
+		return nil, err
+	}
+	return &l, nil
+}
+
+// mkTar renders the entries as a tar archive and says where each regular file's content is.
+func mkTar(ents []ent) ([]byte, map[string]span, error) {
+	spans := map[string]span{}
 	var buf bytes.Buffer
 	tw := tar.NewWriter(&buf)
 	seen := map[string]bool{}
@@ -44,7 +77,7 @@ func mkLayer(ents []ent) (*claircore.Layer, error) {
 	}
 	for _, e := range ents {
 		if err := mkdirs(e.path); err != nil {
-			return nil, err
+			return nil, nil, err
 		}
 		switch {
 		case e.dir:
@@ -53,35 +86,30 @@ func mkLayer(ents []ent) (*claircore.Layer, error) {
 			}
 			seen[e.path] = true
 			if err := tw.WriteHeader(&tar.Header{Typeflag: tar.TypeDir, Name: e.path + "/", Mode: 0o755}); err != nil {
-				return nil, err
+				return nil, nil, err
 			}
 		case e.link != "":
 			if err := tw.WriteHeader(&tar.Header{Typeflag: tar.TypeSymlink, Name: e.path, Linkname: e.link, Mode: 0o777}); err != nil {
-				return nil, err
+				return nil, nil, err
 			}
 		default:
-			if err := tw.WriteHeader(&tar.Header{Typeflag: tar.TypeReg, Name: e.path, Mode: 0o644, Size: int64(len(e.data))}); err != nil {
-				return nil, err
+			mode := int64(0o644)
+			if e.mode != 0 {
+				mode = e.mode
 			}
+			if err := tw.WriteHeader(&tar.Header{Typeflag: tar.TypeReg, Name: e.path, Mode: mode, Size: int64(len(e.data))}); err != nil {
+				return nil, nil, err
+			}
+			spans[e.path] = span{int64(buf.Len()), int64(buf.Len() + len(e.data))}
 			if _, err := tw.Write(e.data); err != nil {
-				return nil, err
+				return nil, nil, err
 			}
 		}
 	}
 	if err := tw.Close(); err != nil {
-		return nil, err
+		return nil, nil, err
 	}
-	b := buf.Bytes()
-	sum := sha256.Sum256(b)
-	var l claircore.Layer
-	desc := claircore.LayerDescription{
-		Digest:    fmt.Sprintf("sha256:%x", sum),
-		MediaType: "application/vnd.oci.image.layer.v1.tar",
-	}
-	if err := l.Init(context.Background(), &desc, bytes.NewReader(b)); err != nil {
-		return nil, err
-	}
-	return &l, nil
+	return buf.Bytes(), spans, nil
 }
 
 func sortedStrings(xs []string) []string {
